@@ -301,3 +301,65 @@ def check_C12(tier):
     # failures of the finder agreement itself belong to C11; C12 owns the c12_*, sidreads clauses
     rep.items = [it for it in rep.items if it['kind'] != 'finders' or any(c.startswith('c12_') or c in ('noraise', 'harness') for c in it['clauses'])]
     return rep.finish()
+
+
+def _sim_behaviours(module, cfg, conf, num, depth, var='hist', extra_env=None):
+    """random behaviours from TLC -simulate: the value of `var` in the last state of every generated trace"""
+    import glob, re
+    from common import scratch, tlc, parse_tla
+    d = scratch('sim-')
+    env = {'SPIL_CONF_JSON': conf}
+    env.update(extra_env or {})
+    r = tlc(module, cfg, env=env, workers=1, timeout=1200,
+            extra=['-simulate', 'file=%s/tr,num=%d' % (d, num), '-depth', str(depth), '-seed', str(SEED + 1)])
+    out = []
+    for f in sorted(glob.glob(d + '/tr_*')):
+        txt = open(f).read()
+        blocks = txt.split('STATE_')
+        last = blocks[-1]
+        m = re.search(r'(?ms)^/\\ %s = (.*?)(?=^/\\ |\Z)' % var, last)
+        if m:
+            body = m.group(1).split('\n====')[0]
+            out.append(parse_tla(body))
+    return r, out
+
+
+@reg
+def check_C15(tier):
+    rep = Report('C15', tier)
+    env = Env()
+    conf = extract_conf(env)
+    env.run('probe_routing.py', [conf])
+    r = mc('StoreDyn', 'StoreDyn_%s.cfg' % tier, conf, dump=True)
+    rep.add_tlc(r, 'all Writer behaviours up to the depth of StoreDyn_%s.cfg (ExistsIff, FailChangesNothing, WriteIsLocal, ...)' % tier)
+    if r.violation:
+        rep.fail('spec-invariant', 'TLC: ' + K._tlc_error(r.out), record=dict(tlc_tail=r.out[-3000:]))
+        return rep.finish()
+    K.tlc_ok(r, 'StoreDyn')
+    hists = calls_from_dump(r.dumpfile, var='hist')
+    depth = max(len(h) for h in hists)
+    behaviours = [h for h in hists if len(h) == depth]
+    nsim, dsim = (150, 10) if tier == 'quick' else (1500, 40)
+    rs, sims = _sim_behaviours('StoreDyn', 'StoreDyn_gen.cfg', conf, nsim, dsim)
+    rep.add_tlc(rs, 'random Writer behaviours (-simulate num=%d depth=%d)' % (nsim, dsim))
+    behaviours += [h for h in sims if h]
+    if tier == 'quick' and len(behaviours) > 450:
+        # all behaviours were checked by TLC on the model; the quick tier replays a seeded sample of the exhaustive ones
+        rnd = random.Random(SEED)
+        ex = [h for h in behaviours if len(h) == depth]
+        behaviours = rnd.sample(ex, 300) + [h for h in behaviours if len(h) != depth]
+    if os.environ.get('VERIF_LIMIT'):
+        behaviours = behaviours[:int(os.environ['VERIF_LIMIT'])]
+    alphabet = sorted({tuple(st['segs']) for h in behaviours for st in h})
+    calls = [dict(id=i, steps=h, alphabet=[list(a) for a in alphabet]) for i, h in enumerate(behaviours)]
+    K.code_to_spec(rep, env, conf, calls, 'every behaviour replayed with WriteToPaths on a scratch tree; state and reads logged after every call',
+                   module='StoreTrace', script='run_store_dyn.py', tag='dyn', extra={'SPIL_CONF_JSON': conf},
+                   envs=store_envs(16, env), per=10, chunk=3000, split_on='"dynreset"')
+    rep.exhaustive = True
+    rep.notes['behaviours'] = len(behaviours)
+    rep.notes['exhaustive_depth'] = depth
+    for t in ('dyn:create:ok', 'dyn:create:refused', 'dyn:update:ok', 'dyn:update:refused', 'dynfresh'):
+        rep.guard(t in rep.cover or not calls, '%s never exercised' % t)
+    rep.assumptions = ['alphabet of 7 Sids derived from the configuration (two files sharing a sidecar, a file of another type, folders, a sibling, a level without path)',
+                       'set() and update() are both driven from the Update action (set with one attribute, set with keywords, update with a mapping)']
+    return rep.finish()
